@@ -949,7 +949,7 @@ func TestVerifKeepAliveHTTP(t *testing.T) {
 		}
 	}
 	rng := verifRng(1313)
-	nr := verifN(600, 8000)
+	nr := verifN(600, 5000)
 	for i := 0; i < nr; i++ {
 		if verifThorough() {
 			emit("h", khRandom(rng, 14, 6))
